@@ -3,7 +3,7 @@
 # prints one line: <dir> applies=.. compiles=.. touches_pinned=.. demo_clean=<rc> demo_mutant=<rc>
 d="$1"
 scratch=$(mktemp -d /tmp/seedchk.XXXXXX)
-(cd /repo && git archive HEAD packages/llama-index-workflows/src packages/llama-agents-server/src packages/llama-agents-core/src packages/llama-agents-client/src | tar -x -C "$scratch")
+(cd /repo && git archive HEAD packages/llama-index-workflows/src packages/llama-agents-server/src packages/llama-agents-core/src packages/llama-agents-client/src packages/llama-agents-dbos/src src | tar -x -C "$scratch")
 applies=yes
 (cd "$scratch" && patch -p1 -s < "$d/patch.diff") || applies=no
 files=$(grep '^+++ b/' "$d/patch.diff" | sed 's#^+++ b/##')
@@ -13,7 +13,7 @@ touches=no
 for f in $files; do case "$f" in src/dev_cli/*|tests/*) touches=yes;; esac; done
 stub=/verif/replay_support
 run_demo() { # $1 = tree root
-  (cd "$d" && PYTHONPATH="$stub:$1/packages/llama-index-workflows/src:$1/packages/llama-agents-server/src:$1/packages/llama-agents-core/src:$1/packages/llama-agents-client/src" SEEDED_TREE="$1" timeout 600 /venv/bin/python demo.py >/tmp/seedchk_demo.out 2>&1; echo $?)
+  (cd "$d" && PYTHONPATH="$stub:$1/packages/llama-index-workflows/src:$1/packages/llama-agents-server/src:$1/packages/llama-agents-core/src:$1/packages/llama-agents-client/src:$1/packages/llama-agents-dbos/src:$1/src" SEEDED_TREE="$1" timeout 600 /venv/bin/python demo.py >/tmp/seedchk_demo.out 2>&1; echo $?)
 }
 rc_clean=$(run_demo /repo)
 rc_mut=$(run_demo "$scratch")
